@@ -59,7 +59,7 @@ func runC17(c *eng.Ctx) {
 			if len(elems) != 1 {
 				return
 			}
-			src, ok := elems[0].(*ssa.Call)
+			src, ok := eng.Strip(elems[0]).(*ssa.Call)
 			if !ok || eng.CalleeRef(&src.Call) != natsToProto {
 				return
 			}
